@@ -44,6 +44,10 @@ AUCTIONS = {
     'both_sides': ['1S', '2S', 'Pass', 'Pass', 'X', 'Pass', 'Pass', 'Pass'],   # both sides named spades; late double
     'slam': ['2C', 'Pass', '7NT', 'X', 'XX', 'Pass', 'Pass', 'Pass'],
     'competitive': ['1C', '1D', '1H', '1S', '1NT', 'Pass', 'Pass', 'X', 'Pass', 'Pass', 'Pass'],
+    'rebid_after_double': ['1H', 'X', '2H', 'Pass', 'Pass', 'Pass'],               # the doubled side raises its own strain: the double is gone
+    'rebid_after_redouble': ['1C', 'X', 'XX', '1S', '2C', 'Pass', 'Pass', 'Pass'],
+    'opponents_named_first': ['1H', '2H', 'Pass', '3H', 'Pass', 'Pass', 'Pass'],    # the defenders named the final strain first
+    'same_round_partners': ['Pass', '1S', 'Pass', '2S', 'Pass', 'Pass', 'Pass'],    # both partners name the strain in one round
 }
 
 
